@@ -75,9 +75,9 @@ def space(tier, seed):
                     items.append({"part": "battery", "cfg": cfg, "soc": soc, "v": v, "period": period, "L": b["L"], "D": b["noise_deviations"]})
     # (b) simulation cells: reuse the ledger scenario space on the heterogeneous network
     for scn in c02.space("quick", seed):
-        if scn.get("block") or scn["net"] != "N2" or scn["sk"] not in ("max1", "alt", "unc", "fcfs"):
+        if scn.get("block") or scn["net"] != "N2" or scn["sk"] not in ("max1", "alt", "unc", "fcfs", "near"):
             continue
-        if tier == "quick" and (scn["period"] == 5 or len(scn["sessions"]) > 2):
+        if tier == "quick" and ((scn["period"] == 5 and scn["sk"] != "near") or len(scn["sessions"]) > 2):
             continue
         items.append({"part": "sim", "scn": scn})
         if scn["sk"] == "max1" and scn["period"] != 5:
